@@ -184,8 +184,22 @@ func Sched() {}
 // Preempt enables context switches at synchronisation points, at most n per path.
 func Preempt(n int) {}
 
-// MapOrder makes the iteration order of maps a fork point from here on.
-func MapOrder(on bool) {}
+// MapOrder makes the iteration order of maps a fork point from here on.  Natively the
+// Go runtime picks the order at random: a replay is then repeated until the recorded
+// order comes up (see OrderSensitive).
+func MapOrder(on bool) {
+	if on {
+		orderSensitive = true
+	}
+}
+
+var orderSensitive bool
+
+// OrderSensitive reports whether the harness depends on map iteration order.
+func OrderSensitive() bool { return orderSensitive }
+
+// Rewind restarts the recorded inputs for another native attempt.
+func Rewind() { pos = 0; failures = nil; notes = nil }
 
 // Concrete forces a value to be concrete (forks over its feasible values).
 func Concrete(v int) int { return v }
